@@ -119,6 +119,10 @@ type mGrammar struct {
 	Toks []string `@(A | B)*`
 }
 
+type mTextGrammar struct {
+	Toks []string `@(Ident | Int | "+")*`
+}
+
 var mLexer = lexer.MustSimple([]lexer.SimpleRule{{Name: "A", Pattern: `a`}, {Name: "B", Pattern: `b`}, {Name: "C", Pattern: `c`}})
 
 // mapper-run <lines>: "stream|sel1,sel2,sel3|expected call log"; three recording Map mappers with the given selections
@@ -174,6 +178,28 @@ func mapperRun(args []string) error {
 		check("ParseString", func() error { _, err := parser.ParseString("", input); return err })
 		check("Lex", func() error { _, err := parser.Lex("", strings.NewReader(input)); return err })
 		check("ParseBytes", func() error { _, err := parser.ParseBytes("", []byte(input)); return err })
+		// the same pipeline over the default text/scanner lexer: A = Ident, B = Int, C = the punctuation token "+", whose
+		// type is the rune itself and has no symbol name (only catch-all mappers can select it)
+		if !strings.Contains(p[1], "C") {
+			tsel := map[string][]string{"*": nil, "A": {"Ident"}, "B": {"Int"}, "AB": {"Ident", "Int"}}
+			var topts []participle.Option
+			for i, s := range sels {
+				id := i + 1
+				topts = append(topts, participle.Map(func(t lexer.Token) (lexer.Token, error) {
+					if !t.EOF() {
+						log = append(log, fmt.Sprintf("%d@%d", id, t.Pos.Offset/2+1))
+					}
+					return t, nil
+				}, tsel[s]...))
+			}
+			tparser, err := participle.Build[mTextGrammar](topts...)
+			if err != nil {
+				return err
+			}
+			tinput := strings.Join(strings.Split(strings.NewReplacer("a", "a", "b", "1", "c", "+").Replace(input), ""), " ")
+			check("text/scanner ParseString", func() error { _, err := tparser.ParseString("", tinput); return err })
+			check("text/scanner Lex", func() error { _, err := tparser.Lex("", strings.NewReader(tinput)); return err })
+		}
 		// Upper on the first selection: exactly the selected types are upper-cased, positions untouched
 		up, err := participle.Build[mGrammar](participle.Lexer(mLexer), participle.Elide("C"), participle.Upper(selTypes[sels[0]]...))
 		if err != nil {
